@@ -99,7 +99,8 @@ _SCHED_RULE = ("sched: random schedules executed on REAL goroutines through the 
                "each event through Sys.step and compares positions, entry identities, store consultation and final answers (X-Status, Age, "
                "body, code). non-trivial = every event line except ticks; distinct = distinct lines.")
 _SYS_TRUSTED = ["Go runtime: sync.Mutex/RWMutex and unbuffered channel semantics, the scheduler (the model's atomic steps are the lock-protected blocks; tied by the sched suite and the extracted lock table)",
-                "elton middleware chain and context", "the wall clock is monotone (whole seconds)"]
+                "elton middleware chain and context", "the wall clock is monotone (whole seconds)",
+                "the hand transcription of the entry state machine into Entry/Sys, tied to the source by the regenerated statement skeletons (C01.skeleton_transcribed) and the lock-scope facts (lockSections, storeCalls, accessTable); groupcache lru.Cache is modelled (every method call on it counts as a write of the shard)"]
 PROPS["C01"] = {
     "suites": [{"name": "sched", "stateful": True, "quick": 1500, "thorough": 30000, "thorough_seeds": 4}],
     "trip_re": "overlap|waiter_not_served|second_entry_for_key",
